@@ -15,7 +15,8 @@ Record case := mk_case {
   o_update : list Z; n_update : list Z; o_update_twins : list Z;
   o_del : list Z; n_del : list Z; o_del_twins : list Z; o_del_again : list Z;
   o_unscoped_find : list Z; n_unscoped_find : list Z; o_unscoped_del : list Z;
-  o_assoc : list (list Z); n_assoc : list (list Z);   (* preload / association lookups / joins of soft-delete models, with and without twins *)
+  o_assoc : list (list Z); n_assoc : list (list Z);
+  o_uassoc : list (list Z); n_uassoc : list (list Z); (* the same paths under Unscoped *)   (* preload / association lookups / joins of soft-delete models, with and without twins *)
   o_errs : Z
 }.
 
@@ -93,6 +94,9 @@ Definition spec_holds (c : case) : bool :=
   && (leading_or c || zlist_eqb (n_unscoped_find c) (n_find c))
   && zlist_eqb (o_unscoped_del c) (o_unscoped_find c)
   (* association join, preload and association lookups: as if the marked rows did not exist *)
-  && list_eqb zlist_eqb (o_assoc c) (n_assoc c).
+  && list_eqb zlist_eqb (o_assoc c) (n_assoc c)
+  (* under Unscoped every path sees a twin exactly where it sees the original *)
+  && list_eqb zlist_eqb (o_uassoc c)
+       (map (fun l => merge_sorted (List.length l * 2 + 2) l (map (fun i => (i + 100)%Z) l)) (n_uassoc c)).
 
 Definition check_case (c : case) : N := code_of (model_agrees c) (spec_holds c).
